@@ -269,6 +269,10 @@ def clip01 (t : Rat) : Rat := if t < 0 then 0 else if 1 < t then 1 else t
 def lastObj (elites : List Elite) (i : Nat) : Option Rat :=
   lastBy (fun e => e.index == i) elites
 
+/-- `if min_obj == max_obj: min_obj, max_obj = min_obj - 0.01, max_obj + 0.01` -/
+def widen (p : Rat × Rat) : Rat × Rat :=
+  if p.1 = p.2 then (p.1 - 1 / 100, p.2 + 1 / 100) else p
+
 /-- per centroid index `0 … cells-1`: `none` = transparent (empty cell), `some t` = the
 colormap position `clip((obj - min_obj) / (max_obj - min_obj), 0, 1)`; and the limits
 of the colour bar (`min_obj == max_obj` is widened by 1/100 on both sides) -/
@@ -276,10 +280,10 @@ def cvt2Cells (cells : Nat) (elites : List Elite) (vmin vmax : Option Rat) :
     Except Err (List (Option Rat) × (Rat × Rat)) :=
   match clim ((elites.filter (fun e => decide (e.index < cells))).map (·.obj)) vmin vmax with
   | .error e => .error e
-  | .ok (lo, hi) =>
-    let (lo, hi) := if lo = hi then (lo - 1 / 100, hi + 1 / 100) else (lo, hi)
-    .ok ((List.range cells).map (fun i => (lastObj elites i).map (fun o => clip01 ((o - lo) / (hi - lo)))),
-         (lo, hi))
+  | .ok cl =>
+    let w := widen cl
+    .ok ((List.range cells).map
+          (fun i => (lastObj elites i).map (fun o => clip01 ((o - w.1) / (w.2 - w.1)))), w)
 
 /-! ### scatter plots (sliding boundaries, proximity) -/
 
